@@ -7,4 +7,5 @@ APPENDS = {
     "rustzx-core/src/zx/joy/kempston.rs": ["kani/core/append_kempston.rs"],
     "rustzx-core/src/emulator/mod.rs": ["kani/core/append_emulator.rs"],
     "rustzx-core/src/zx/sound/mixer.rs": ["kani/core/append_mixer.rs"],
+    "rustzx-core/src/zx/video/screen.rs": ["kani/core/append_screen.rs"],
 }
